@@ -311,7 +311,11 @@ def execute(script):
                 if kind == 'drop_reopen' and buffered:
                     res.bump('fault:restart_without_flush')
                 if kind == 'close_reopen' and not wedged and not had_fault:
-                    store.flush_blocks_to_disk()
+                    try:
+                        store.flush_blocks_to_disk()
+                    except sqlite3.Error as e:
+                        res.violate(PROP, 'C08/flush-raised', 'flushing accepted blocks (parents first) raised %s: %s' % (type(e).__name__, e))
+                        break
                     for b in buffered:
                         if b not in flushed:
                             flushed.append(b)
